@@ -163,6 +163,55 @@ class EnumMember(Dom):
         return 'member of ' + self.qual
 
 
+class Flag(Dom):
+    """value of a repo IntFlag: any int in [0, hi]"""
+    def __init__(self, qual, hi):
+        self.qual, self.hi = qual, hi
+
+    def sym(self, ex, st, name):
+        z = z3.Int(name)
+        st.pc += [z >= 0, z <= self.hi]
+        return E.VInt(z, enum=self.qual)
+
+    def samples(self, rng, n):
+        out = [0, self.hi] + [1 << i for i in range(self.hi.bit_length())]
+        while len(out) < n:
+            out.append(rng.randint(0, self.hi))
+        return out
+
+    def from_model(self, model, name):
+        v = model.get(name)
+        return v if isinstance(v, int) and 0 <= v <= self.hi else 0
+
+    def native(self, v):
+        return resolve_native(self.qual)(v)
+
+    def describe(self):
+        return 'flag set %s in [0, %d]' % (self.qual.split('.')[-1], self.hi)
+
+
+class ListOf(Dom):
+    """python list of exactly n elements drawn from `elem`"""
+    def __init__(self, elem, n):
+        self.elem, self.n = elem, n
+
+    def sym(self, ex, st, name):
+        return ex.new_list(st, [self.elem.sym(ex, st, '%s[%d]' % (name, i)) for i in range(self.n)])
+
+    def samples(self, rng, n):
+        per = self.elem.samples(rng, n)
+        return [[rng.choice(per) for _ in range(self.n)] for _ in range(n)]
+
+    def from_model(self, model, name):
+        return [self.elem.from_model(model, '%s[%d]' % (name, i)) for i in range(self.n)]
+
+    def native(self, v):
+        return [self.elem.native(x) for x in v]
+
+    def describe(self):
+        return 'list of %d x %s' % (self.n, self.elem.describe())
+
+
 class Bytes(Dom):
     """bytes / bytearray with length in [minlen, maxlen]; kind 'bytes' or 'bytearray'.
     `first` optionally constrains the first octet: (lo, hi)."""
@@ -252,12 +301,12 @@ class Obj(Dom):
         return {f: d.from_model(model, '%s.%s' % (name, f)) for f, d in self.fields.items()}
 
     def native(self, v):
-        cls = resolve_native(self.cls)
         if self.intvalue is not None:
-            return cls(v['__int__'])
+            return resolve_native(self.cls)(v['__int__'])
         vals = {f: self.fields[f].native(x) for f, x in v.items()}
         if self.build is not None:
             return self.build(vals)
+        cls = resolve_native(self.cls)
         o = cls.__new__(cls)
         for f, x in vals.items():
             object.__setattr__(o, f, x)
